@@ -96,6 +96,7 @@ func (srv *Server) Serve(listener net.Listener) error {
 	go func() {
 		defer srv.wg.Done()
 		<-srv.closer
+		verifPoint(srv, "serve.helper")
 
 		err := listener.Close()
 		if err != nil {
@@ -182,15 +183,22 @@ func (srv *Server) serve(ctx context.Context, conn net.Conn) error {
 
 // Close gracefully closes the underlaying Postgres server.
 func (srv *Server) Close() error {
+	verifPoint(srv, "close.enter")
 	srv.closeOnce.Do(func() {
 		// NOTE: commands are admitted while holding the read lock, no command
 		// is admitted once the closing flag has been set.
+		verifPoint(srv, "close.lock")
 		srv.mu.Lock()
+		verifPoint(srv, "close.store")
 		srv.closing.Store(true)
+		verifPoint(srv, "close.unlock")
 		srv.mu.Unlock()
+		verifPoint(srv, "close.chan")
 		close(srv.closer)
 	})
 
+	verifPoint(srv, "close.wait")
 	srv.wg.Wait()
+	verifPoint(srv, "close.return")
 	return nil
 }
